@@ -55,7 +55,10 @@ def run(rep, tier, seed, replay=None):
         'compute_inner / compute_block_layout / compute_root_layout, determine_content_based_container_width over leaves, leaf.rs '
         'compute_leaf_layout (InherentSize; measure functions that ignore the available space), Cache::get for the final-layout entry',
         'each in-flow child\'s LayoutOutput is an oracle value in the theorems; K computes it with the leaf model',
-        'calc() values, baselines and the absolute-position pass (C11) are not modelled; absolute children in K: all insets auto',
+        'calc() values and baselines are not modelled; absolute children in K1: all insets auto; in the whole-tree K4 the absolute pass is '
+        'the translated C11 kernel (Model/BlockAbs.v) with arbitrary insets',
+        'whole-tree theorems C10_block_tree_*: engine skeleton with the exact-key memo (Model/Engine.v), hand models Model/BlockAlg.v / '
+        'BlockEngine.v / BlockAbs.v / BlockRoot.v tied by K4; the premises on child outputs are on the final cache entries (real outputs)',
         'oracle: harness re-statement of the clauses (harness/src/c10.rs check_container) on layouts obtained through the low-level API'])
     rc, out, binp, dt = build_harness('release')
     if rc != 0:
@@ -121,6 +124,11 @@ def run(rep, tier, seed, replay=None):
         # position:absolute and 25 % display:none, keeping the containers in which such children sit between in-flow ones
         from . import _hidabs
         _hidabs.block_k(rep, 'C10', binp, seed + 1010, 1600 if tier != 'quick' or block_changed else 400)
+        # ---- K4 (wave 5): WHOLE TREES -- the engine instance of block containers and leaves (compute_root_layout + exact-key memo +
+        # block resumption with the REAL absolute routine + leaf) that C10_block_tree_* / C04 / C12 / C05 / C06 block-engine theorems
+        # are about vs TaffyTree::compute_layout_with_measure, every node's unrounded layout, bit for bit
+        from . import _blocktree
+        _blocktree.tree_k(rep, 'C10', binp, seed + 505, 4000 if tier != 'quick' or block_changed else 600)
     feats, pairs, distinct = {}, set(), set()
     inflow_total = 0
     for c in cases:
